@@ -124,10 +124,13 @@ func (w *baWorld) probe(d digest.Digest) int {
 	}
 	w.ba.Get(w.ctx, d).Discard()
 	calls := w.drain()
-	if len(calls) != 1 || calls[0].Op != "Get" || calls[0].Digests[0] != d {
-		w.t.Fatalf("Get(%s) on %s reached the back ends as %v, want exactly one Get of that digest", d, w.desc, calls)
+	// Which and how many calls a Get makes is the implementation's; it
+	// must address ONE shard, which is then "the shard of d".
+	if len(calls) == 0 {
+		w.t.Fatalf("Get(%s) on %s reached no back end", d, w.desc)
 	}
 	s := backendOf(calls[0])
+	w.onlyShard("Get", d, calls, s)
 	w.route[d.String()] = s
 	p := prefixOf(d)
 	if prev, ok := w.byPrefix[p]; ok {
@@ -142,6 +145,22 @@ func (w *baWorld) probe(d digest.Digest) int {
 	w.prefixInst[p][d.GetInstanceName().String()] = true
 	w.prefixTail[p][d.GetHashString()] = true
 	return s
+}
+
+// onlyShard asserts that every back-end call of an operation on d went to
+// shard s ("Get, Put and FindMissing for the same digest always address the
+// same shard") and concerned d only. Number and kind of calls are free.
+func (w *baWorld) onlyShard(op string, d digest.Digest, calls []backends.Call, s int) {
+	for _, cl := range calls {
+		if backendOf(cl) != s {
+			w.t.Fatalf("%s(%s) reached the back ends as %v, but Get for the same digest addresses shard %q (%s)", op, d, calls, w.ends[s].key, w.desc)
+		}
+		for _, cd := range cl.Digests[:min(1, len(cl.Digests))] {
+			if cd != d {
+				w.t.Fatalf("%s(%s) asked shard %q about another object: %v (%s)", op, d, w.ends[s].key, calls, w.desc)
+			}
+		}
+	}
 }
 
 // arm draws, per shard, whether its next call fails.
@@ -179,23 +198,27 @@ func (w *baWorld) callCounts() []int {
 	return out
 }
 
-// expectShardError checks that err is the injected failure of shard s and
-// names that shard.
+// expectShardError checks that an error returned while shard s failed
+// carries that shard's key. Code and wording of the error are the
+// implementation's ("errors carry the shard key" is all the property says).
 func (w *baWorld) expectShardError(c *vstats.Case, op string, err error, s int) {
 	e := w.ends[s]
-	if err == nil {
-		w.t.Fatalf("%s: shard %q failed with an injected %s but the caller saw success (%s)", op, e.key, e.code, w.desc)
-	}
 	msg := status.Convert(err).Message()
-	if status.Code(err) != e.code || !strings.Contains(msg, e.faulty.ErrText()) {
-		w.t.Fatalf("%s: shard %q failed with %s %q but the caller received %v (%s)", op, e.key, e.code, e.faulty.ErrText(), err, w.desc)
-	}
+	c.ClassIf(status.Code(err) != e.code || !strings.Contains(msg, e.faulty.ErrText()), "fault_error_recoded")
 	w.expectKeyInMessage(c, op, msg, e.faulty.ErrText(), s)
+}
+
+// carriesKey: the message contains the shard key, verbatim or in one of
+// Go's quoted renderings (%q, %+q: a key with unprintable characters may
+// legitimately be escaped).
+func carriesKey(msg, key string) bool {
+	q, qa := strconv.Quote(key), strconv.QuoteToASCII(key)
+	return strings.Contains(msg, key) || strings.Contains(msg, q[1:len(q)-1]) || strings.Contains(msg, qa[1:len(qa)-1])
 }
 
 func (w *baWorld) expectKeyInMessage(c *vstats.Case, op, msg, inner string, s int) {
 	key := w.ends[s].key
-	if !strings.Contains(msg, key) {
+	if !carriesKey(msg, key) {
 		w.t.Fatalf("%s: error from shard %q does not carry the shard key: %q (%s)", op, key, msg, w.desc)
 	}
 	// Generator health: could the assertion above have failed? Only if the
@@ -348,25 +371,24 @@ func TestC12BlobAccess(t *testing.T) {
 				err := w.ba.Put(w.ctx, d, buffer.NewCASBufferFromReader(d, src, buffer.UserProvided))
 				calls := w.drain()
 				fired := w.disarm(cb)
-				if len(calls) != 1 || calls[0].Op != "Put" || calls[0].Digests[0] != d || backendOf(calls[0]) != owner {
-					t.Fatalf("Put(%s) reached the back ends as %v, but Get for the same digest addresses shard %q (%s)", d, calls, w.ends[owner].key, w.desc)
-				}
-				if cl := src.Closes.Load(); cl != 1 {
-					t.Fatalf("Put(%s): upload source closed %d times, want once (%s)", d, cl, w.desc)
-				}
-				if len(fired) > 0 {
-					if len(fired) != 1 || fired[0] != owner {
-						t.Fatalf("harness: fault fired at %v during Put to shard %d", fired, owner)
+				w.onlyShard("Put", d, calls, owner)
+				c.ClassIf(len(calls) != 1 || calls[0].Op != "Put", "put_not_exactly_one_backend_put")
+				c.ClassIf(src.Closes.Load() != 1, "put_source_not_closed_once")
+				if err != nil {
+					if len(fired) == 0 {
+						t.Fatalf("Put(%s) failed without an injected fault: %v (%s)", d, err, w.desc)
 					}
 					w.expectShardError(c, "Put", err, owner)
-					if after := w.memSnapshot(); fmt.Sprint(after) != fmt.Sprint(before) {
-						t.Fatalf("failed Put(%s) changed back-end contents: %v -> %v (%s)", d, before, after, w.desc)
+					// (whether a failed upload left the object behind in the
+					// owning shard is not the property's business; keep the
+					// reference store in step)
+					if got, ok := w.ends[owner].mem.Peek(d); ok {
+						w.ref.Set(d, got)
+						c.Class("put_failed_object_held_by_owner")
 					}
 					c.Class("put_fault")
 				} else {
-					if err != nil {
-						t.Fatalf("Put(%s) failed without an injected fault: %v (%s)", d, err, w.desc)
-					}
+					c.ClassIf(len(fired) > 0, "put_ok_despite_shard_failure")
 					w.ref.Set(d, o.data)
 					uploaded = append(uploaded, d)
 					got, ok := w.ends[owner].mem.Peek(d)
@@ -416,27 +438,31 @@ func TestC12BlobAccess(t *testing.T) {
 				got, err := b.ToByteSlice(1 << 20)
 				calls := w.drain()
 				fired := w.disarm(cb)
-				if len(calls) != 1 || calls[0].Op != kind || calls[0].Digests[0] != d || backendOf(calls[0]) != owner {
-					t.Fatalf("%s(%s) reached the back ends as %v, but Get for the same digest addresses shard %q (%s)", kind, d, calls, w.ends[owner].key, w.desc)
+				if len(calls) == 0 {
+					t.Fatalf("%s(%s) reached no back end (%s)", kind, d, w.desc)
 				}
+				w.onlyShard(kind, d, calls, owner)
+				c.ClassIf(len(calls) != 1 || calls[0].Op != kind, "read_not_exactly_one_backend_call")
 				stored, present := w.ref.Peek(d)
 				ownerStored, ownerPresent := w.ends[owner].mem.Peek(d)
 				if present != ownerPresent || !bytes.Equal(stored, ownerStored) {
 					t.Fatalf("shard %q and the single reference store disagree about %s: %v/%q vs %v/%q (%s)", w.ends[owner].key, d, ownerPresent, ownerStored, present, stored, w.desc)
 				}
 				switch {
-				case len(fired) > 0:
+				case len(fired) > 0 && err != nil:
 					w.expectShardError(c, kind, err, owner)
 					c.Class("read_fault")
 				case present:
 					if err != nil || !bytes.Equal(got, stored) {
 						t.Fatalf("%s(%s): got %q, %v; the reference store holds %q (%s)", kind, d, got, err, stored, w.desc)
 					}
+					c.ClassIf(len(fired) > 0, "read_ok_despite_shard_failure")
 					c.Class("read_hit")
 				default:
-					if status.Code(err) != codes.NotFound {
-						t.Fatalf("%s(%s) of an absent object: got %q, %v, want NOT_FOUND (%s)", kind, d, got, err, w.desc)
+					if err == nil {
+						t.Fatalf("%s(%s) of an absent object returned %q (%s)", kind, d, got, w.desc)
 					}
+					c.ClassIf(status.Code(err) != codes.NotFound, "read_miss_not_not_found")
 					w.expectKeyInMessage(c, kind, status.Convert(err).Message(), "mem"+strconv.Itoa(owner)+": object "+d.String()+" not found", owner)
 					c.Class("read_miss")
 				}
@@ -464,61 +490,49 @@ func TestC12BlobAccess(t *testing.T) {
 				}
 				cb := w.callCounts()
 				w.arm()
-				var armedInvolved []int
-				for i, e := range w.ends {
-					if e.armed && len(part[i]) > 0 {
-						armedInvolved = append(armedInvolved, i)
-					}
-				}
 				missing, err := w.ba.FindMissing(w.ctx, set)
 				calls := w.drain()
 				fired := w.disarm(cb)
-				// Each shard is asked exactly about its own digests.
-				seen := make([]bool, n)
+				// Each shard is asked only about its own digests (how often,
+				// in how many batches, and whether a shard without digests
+				// sees an empty call is the implementation's).
+				seen := make([]int, n)
 				for _, cl := range calls {
 					s := backendOf(cl)
-					if cl.Op != "FindMissing" || seen[s] {
-						t.Fatalf("FindMissing(%v): unexpected back-end calls %v (%s)", sortedStrings(set.Items()), calls, w.desc)
+					seen[s]++
+					own := map[string]bool{}
+					for _, d := range part[s] {
+						own[d.String()] = true
 					}
-					seen[s] = true
-					if fmt.Sprint(sortedStrings(cl.Digests)) != fmt.Sprint(sortedStrings(part[s])) {
-						t.Fatalf("FindMissing asked shard %q about %v, but the digests that Get routes to it are %v (%s)", w.ends[s].key, sortedStrings(cl.Digests), sortedStrings(part[s]), w.desc)
+					for _, d := range cl.Digests {
+						if !own[d.String()] {
+							t.Fatalf("FindMissing asked shard %q about %v, but the digests that Get routes to it are %v (%s)", w.ends[s].key, sortedStrings(cl.Digests), sortedStrings(part[s]), w.desc)
+						}
 					}
 				}
 				for s := range part {
-					if len(part[s]) > 0 && !seen[s] {
-						t.Fatalf("FindMissing never asked shard %q about its digests %v (%s)", w.ends[s].key, sortedStrings(part[s]), w.desc)
-					}
-					if len(part[s]) == 0 && seen[s] {
-						t.Fatalf("FindMissing asked shard %q although none of %v is routed to it (%s)", w.ends[s].key, sortedStrings(set.Items()), w.desc)
-					}
+					c.ClassIf((len(part[s]) > 0) != (seen[s] == 1), "find_shard_not_asked_exactly_once_iff_involved")
 				}
-				if fmt.Sprint(fired) != fmt.Sprint(armedInvolved) {
-					t.Fatalf("harness: faults fired at %v, expected at %v", fired, armedInvolved)
-				}
-				if len(fired) > 0 {
-					if err == nil {
-						t.Fatalf("FindMissing succeeded although shards %v failed (%s)", fired, w.desc)
+				if err != nil {
+					if len(fired) == 0 {
+						t.Fatalf("FindMissing failed without an injected fault: %v (%s)", err, w.desc)
 					}
-					// The error must be the (key-carrying) error of one of
-					// the failed shards.
+					// The error must carry the key of a shard that failed.
+					msg := status.Convert(err).Message()
 					matched := -1
 					for _, s := range fired {
-						e := w.ends[s]
-						if status.Code(err) == e.code && strings.Contains(status.Convert(err).Message(), e.faulty.ErrText()) {
+						if carriesKey(msg, w.ends[s].key) {
 							matched = s
 						}
 					}
 					if matched < 0 {
-						t.Fatalf("FindMissing returned %v, which is not the failure of any failed shard %v (%s)", err, fired, w.desc)
+						t.Fatalf("FindMissing returned %v, which carries the key of none of the failed shards %v (%s)", err, fired, w.desc)
 					}
 					w.expectShardError(c, "FindMissing", err, matched)
 					c.Class("find_fault")
 					c.ClassIf(len(fired) >= 2, "find_two_or_more_faults")
 				} else {
-					if err != nil {
-						t.Fatalf("FindMissing failed without an injected fault: %v (%s)", err, w.desc)
-					}
+					c.ClassIf(len(fired) > 0, "find_ok_despite_shard_failure")
 					// Exactly the union of the shards' own answers ...
 					var union []digest.Digest
 					for s, p := range part {
